@@ -43,7 +43,7 @@ _add(Family(
 ))
 _add(Family(
     "esc",
-    ["chr(", "chrw(", "ChrB(", "65", "0", "065", "99999", "55296", "1114112", ")", "unescape('", "%41", "%zz", "%", "%u0041", "+", "')",
+    ["chr(", "chrw(", "ChrB(", "65", "0", "065", "99999", "55296", "1114112", ")", "unescape('", "%41", "%zz", "%", "%u0041", "%ud83d", "%ude00", "+", "')",
      "a\x00", "\xe9\x00", "\x00\x00", "\x7f\x00", "h\x00t\x00t\x00p\x00:\x00/\x00/\x00"],
     {"quick": 3, "thorough": 4},
 ))
@@ -106,6 +106,20 @@ _add(Family(
     note="context-dependent decoders (xor key, shell look-behind) whose context sits OUTSIDE a decodable layer and whose subject only exists INSIDE it, and vice versa",
 ))
 
+# complete, self-delimiting instances of every decoder's language + separators: every text of <= 3 of them, so that every ordered pair of
+# results (same decoder or two different decoders; separated, adjacent or glued) occurs in one searched text
+PAIR_ITEMS = [
+    "http://example.com/a/b.exe", "http://example.com/%7Euser/%41", "http://ex%2fample.org/x%2fy", "HTTP://User:pw@8.8.4.4:8080/a/../b?q=1#f", "ftp://[::1]/x",
+    "hxxp://example.com", "8.8.4.4", "example.com", "bob@example.org", "/usr/local/bin", "C:\\Users\\Public\\a.txt", "\\\\server.example.com\\share\\f.txt",
+    "\\\\8.8.4.4\\share\\x.dll", "C:\\tmp\\out", "evil.exe", "CreateObject(\"WScript.Shell\")", B64_URL.decode(), "QUJDR0QUJDR0QUJDR0QUJQ==", HEX_URL.decode(),
+    'atob("aHR0cDovL2EuY28=")', "FromBase64String('R1ZASA==')", "&#104;&#116;&#116;&#112;&#58;&#47;&#47;&#97;&#46;&#99;&#111;", "chr(65)", "unescape('%41%2e%62')",
+    "h\x00t\x00t\x00p\x00:\x00/\x00/\x00a\x00.\x00c\x00o\x00m\x00", "'a' + 'b.exe'", "reverse('exe.a')", "StrReverse('moc.a')", '"aXb".replace("X","-")',
+    "'aXb' -replace 'x','-'", "powershell -e QQBCAEMA", '"powershell -c ls"', "(cmd /c echo ^a)", "strlen", "StrLen", " -bxor 35 ",
+]
+PAIR_SEPS = ["", " ", "\n", ";", "\x00"]
+_add(Family("pairs", [i + s for i in PAIR_ITEMS for s in PAIR_SEPS], {"quick": 2, "thorough": 2},
+            note="every ordered pair of complete decoder instances (same decoder or two different ones), glued or separated by each of 5 separators"))
+
 _ALL_BYTES = [bytes([v]).decode("latin-1") for v in range(256)]
 _SWEEP_WRAPS = [
     (b"", b""), (b"cmd /c echo ", b" done"), (b"x c^m^d /c ", b"^"), (b"powershell -e ", b"QQBCAEMA"), (b"'powershell -c ", b"'"),
@@ -121,8 +135,8 @@ _add(Family("bytes2", _ALL_BYTES, {"quick": 1, "thorough": 2}, wraps=_SWEEP_WRAP
             note="every pair of byte values at one position of 5 templates (thorough)"))
 
 STREAM_FAMILIES = {
-    "quick": ["shell", "pwsh", "net", "concat", "kw", "mix", "xml", "b64hex", "esc", "winpath", "ctx", "layered", "bytes1"],
-    "thorough": ["shell", "pwsh", "net", "concat", "kw", "mix", "xml", "b64hex", "esc", "winpath", "ctx", "layered", "bytes1", "bytes2"],
+    "quick": ["shell", "pwsh", "net", "concat", "kw", "mix", "xml", "b64hex", "esc", "winpath", "ctx", "layered", "pairs", "bytes1"],
+    "thorough": ["shell", "pwsh", "net", "concat", "kw", "mix", "xml", "b64hex", "esc", "winpath", "ctx", "layered", "pairs", "bytes1", "bytes2"],
 }
 
 
